@@ -295,6 +295,27 @@ func (t *c01Tr) expr(e ast.Expr) (string, string, error) {
 			}
 			return "(" + l + op + r + ")", "bool", nil
 		}
+		// b == true, b != false: b;  b == false, b != true: !b
+		if x.Op == token.EQL || x.Op == token.NEQ {
+			for _, sides := range [][2]ast.Expr{{x.X, x.Y}, {x.Y, x.X}} {
+				if lit, ok := sides[1].(*ast.Ident); ok && (lit.Name == "true" || lit.Name == "false") {
+					if _, shadowed := t.kindOf(lit.Name); shadowed {
+						break
+					}
+					s, k, err := t.expr(sides[0])
+					if err != nil {
+						return "", "", err
+					}
+					if k != "bool" {
+						return "", "", t.errf("comparison of a %s with %s", k, lit.Name)
+					}
+					if (lit.Name == "true") == (x.Op == token.EQL) {
+						return s, "bool", nil
+					}
+					return "(negb " + s + ")", "bool", nil
+				}
+			}
+		}
 		if (x.Op == token.EQL || x.Op == token.NEQ) && (c01IsNilIdent(x.Y) || c01IsNilIdent(x.X)) {
 			o := x.X
 			if c01IsNilIdent(x.X) {
